@@ -1,0 +1,41 @@
+//go:build verif
+
+package launch
+
+import "net"
+
+// VerifRateLimiter returns the *RateLimiter, which RateLimitHandler chooses
+// for the request, like allow() does, but without consuming a token; the
+// verification harness drives the embedded rate.Limiter with a controlled
+// clock (AllowN(t, 1)).
+func (r *RateLimitHandler) VerifRateLimiter(addr net.Addr, handler string, hint RateLimitRuleHint) *RateLimiter {
+	return r.pool.rateLimiter(
+		addr.String(),
+		handler,
+		hint,
+		r.rateLimiterFunc(addr, handler),
+	)
+}
+
+// VerifAllow is allow().
+func (r *RateLimitHandler) VerifAllow(addr net.Addr, handler string, hint RateLimitRuleHint) (*RateLimiter, bool) {
+	return r.allow(addr, handler, hint)
+}
+
+// VerifRemoveAddr removes the limiters of addr, like shrink() does for an expired addr.
+func (r *RateLimitHandler) VerifRemoveAddr(addr net.Addr) bool {
+	return r.pool.remove(addr.String())
+}
+
+// VerifCachedRateLimiter returns the cached *RateLimiter of (addr, handler)
+// without evaluating any rule.
+func (r *RateLimitHandler) VerifCachedRateLimiter(addr net.Addr, handler string) *RateLimiter {
+	i, found := r.pool.l.Value(addr.String())
+	if !found || i == nil {
+		return nil
+	}
+
+	l, _ := i.Value(handler)
+
+	return l
+}
